@@ -273,7 +273,11 @@ func listPrimitiveKind(f *ssa.Function) string {
 		}
 		a0 := call.Call.Args[0]
 		if sl, ok := a0.(*ssa.Slice); ok && sl.High != nil && sl.Low == nil {
-			if sl2, ok := call.Call.Args[1].(*ssa.Slice); ok && sl2.Low != nil {
+			a1 := call.Call.Args[1]
+			if ct, ok := a1.(*ssa.ChangeType); ok {
+				a1 = ct.X
+			}
+			if sl2, ok := a1.(*ssa.Slice); ok && sl2.Low != nil {
 				kind = "remove"
 				return
 			}
